@@ -29,7 +29,7 @@ def history_ops(case, observe=("obs",)):
             mop = op("g.add", step[1])
         elif kind == "rm":
             mop = op("g.rm", step[1])
-        elif kind == "rename" and not str(step[1]).startswith("@"):
+        elif kind == "rename" and not str(step[1]).startswith("@") and step[2] != "*":
             mop = op("g.rename", step[1], step[2])
         else:
             break
